@@ -6,6 +6,7 @@ package simnet
 // emits into the Trace is fully concrete, so a trace replays without the generator.
 
 import (
+	"encoding/hex"
 	"fmt"
 	"math/big"
 	"math/rand"
@@ -167,7 +168,7 @@ func DefaultKnobs() Knobs {
 		ValFee:    "0.01", StartPO: 1, StartWrk: 1, StartBeacon: 1, GovSecs: 20, Balance: "1000000000000000000"}
 }
 
-var allFlags = []string{"upcase", "group", "vesting", "extrafee", "nest", "overflow", "longdur", "huge", "denomchange", "minaccepts63", "addr255", "idwrap", "bigfee", "stakebond", "dupsigners", "granter"}
+var allFlags = []string{"upcase", "group", "vesting", "extrafee", "nest", "overflow", "longdur", "huge", "denomchange", "minaccepts63", "addr255", "idwrap", "bigfee", "stakebond", "dupsigners", "granter", "rawbytes"}
 
 // flagRates: probability (percent) that a feature flag is on in a run, per property. Flags tied to
 // a known finding stay rare everywhere except in the property that owns the finding.
@@ -175,6 +176,10 @@ func flagRate(prop, flag string) int {
 	if flag == "upcase" {
 		// parties written in the all-upper-case spelling of their bech32 address
 		return map[string]int{"C03": 35, "C13": 30, "C09": 25, "C07": 15}[prop]
+	}
+	if flag == "rawbytes" {
+		// free-text fields (monikers, names, hashes) holding bytes that are not UTF-8
+		return map[string]int{"C15": 25, "C09": 20, "C07": 10, "C20": 10}[prop]
 	}
 	if flag == "group" {
 		// x/group proposals executing module messages: only where the oracles know about them
@@ -948,7 +953,20 @@ func randStr(r *rand.Rand, n int) string {
 
 // regStr: mostly plain random strings; sometimes with leading/trailing blanks or only blanks
 // (registrations must store exactly what was submitted)
+// rawStr is a free-text field holding bytes that are not UTF-8 ("hex:" form, see str()).
+func (g *Gen) rawStr(n int) string {
+	b := []byte(randStr(g.R, n))
+	b[g.R.Intn(len(b))] = pick(g.R, []byte{0xff, 0xfe, 0xc0, 0x80, 0xed})
+	if g.pct(30) {
+		b = append(b, 0xe2, 0x82) // a truncated multi-byte sequence
+	}
+	return "hex:" + hex.EncodeToString(b)
+}
+
 func (g *Gen) regStr(limit int) string {
+	if g.Flags["rawbytes"] && g.pct(20) {
+		return g.rawStr(1 + g.R.Intn(10))
+	}
 	x := randStr(g.R, g.fieldLen(limit))
 	switch g.R.Intn(40) {
 	case 0:
@@ -961,6 +979,13 @@ func (g *Gen) regStr(limit int) string {
 		return " "
 	}
 	return x
+}
+
+func (g *Gen) hashStr() string {
+	if g.Flags["rawbytes"] && g.pct(10) {
+		return g.rawStr(1 + g.R.Intn(10))
+	}
+	return randStr(g.R, g.fieldLen(66))
 }
 
 func (g *Gen) fieldLen(limit int) int {
@@ -1040,7 +1065,7 @@ func (g *Gen) regMsg(w *World, kind string) MsgSpec {
 				w.Fault("input.same_hash_again")
 				return MsgSpec{T: "wrk.record", A: owner, Id: id, N: h, S: append([]string(nil), reg.Kept[n-1].Fields...)}
 			}
-			return MsgSpec{T: "wrk.record", A: owner, Id: id, N: h, S: []string{randStr(g.R, g.fieldLen(66)), randStr(g.R, g.fieldLen(66)), randStr(g.R, g.fieldLen(66)), randStr(g.R, 4), randStr(g.R, 4)}}
+			return MsgSpec{T: "wrk.record", A: owner, Id: id, N: h, S: []string{g.hashStr(), g.hashStr(), g.hashStr(), randStr(g.R, 4), randStr(g.R, 4)}}
 		}
 		st := uint64(w.Now.Unix())
 		if g.pct(20) {
@@ -1053,7 +1078,7 @@ func (g *Gen) regMsg(w *World, kind string) MsgSpec {
 			w.Fault("input.same_hash_again")
 			return MsgSpec{T: "bcn.record", A: owner, Id: id, N: st, S: append([]string(nil), reg.Kept[n-1].Fields...)}
 		}
-		return MsgSpec{T: "bcn.record", A: owner, Id: id, N: st, S: []string{randStr(g.R, g.fieldLen(66))}}
+		return MsgSpec{T: "bcn.record", A: owner, Id: id, N: st, S: []string{g.hashStr()}}
 	}
 	// purchase
 	max := rm.P.MaxLimit
